@@ -196,7 +196,7 @@ def run_and_judge(prop, ctx, cfgbins, shards=1, compare=True, wrapper=None, forc
         res, err, rc = run_driver(binary, lines, wrapper=wrapper, timeout=timeout)
         if rc != 0:
             first = None
-            if rc < 0 and rc != -999:
+            if (rc < 0 and rc != -999) or 'AddressSanitizer' in err:
                 for b in ctx.blocks:
                     for r in b:
                         if (r.only is None or r.only(label)) and r.id not in res:
@@ -206,7 +206,7 @@ def run_and_judge(prop, ctx, cfgbins, shards=1, compare=True, wrapper=None, forc
                         break
             if first:
                 viol.append(Violation(prop, label, first[0].line(), [x.line() for x in first[1]], 'a response', [],
-                                      'driver process killed by signal %d while executing this request: %s' % (-rc, err[-300:])))
+                                      ('AddressSanitizer report' if 'AddressSanitizer' in err else 'driver process killed by signal %d' % (-rc)) + ' while executing this request: %s' % err[-300:]))
                 continue
             harness.append('%s: driver exit code %s: %s' % (label, rc, err[-500:]))
         if frc:
